@@ -149,11 +149,12 @@ impl TraversalMut for DfsPre {
     }
 
     fn skip_subtree(&mut self) {
-        self.size_lb = self.stack.len();
         self.size_ub -= self.last_push;
         for _ in 0..self.last_push {
             self.stack.pop();
         }
+        self.last_push = 0;
+        self.size_lb = self.stack.len();
     }
 
     fn next<N, const K: usize>(&mut self, tree: &Tree<N, K>) -> Option<DfsNodeData> {
@@ -223,11 +224,12 @@ impl TraversalMut for DfsEdge {
     }
 
     fn skip_subtree(&mut self) {
-        self.size_lb = self.stack.len();
         self.size_ub -= self.last_push;
         for _ in 0..self.last_push {
             self.stack.pop();
         }
+        self.last_push = 0;
+        self.size_lb = self.stack.len();
     }
 
     fn next<N, const K: usize>(&mut self, tree: &Tree<N, K>) -> Option<Self::Item> {
@@ -287,11 +289,12 @@ impl TraversalMut for Bfs {
     }
 
     fn skip_subtree(&mut self) {
-        self.size_lb = self.queue.len();
         self.size_ub -= self.last_push;
         for _ in 0..self.last_push {
             self.queue.pop_back();
         }
+        self.last_push = 0;
+        self.size_lb = self.queue.len();
     }
 
     fn next<N, const K: usize>(&mut self, tree: &Tree<N, K>) -> Option<DfsNodeData> {
